@@ -405,7 +405,8 @@ class Simplex:
                         self.nbasic_basic[var_name].add(s)        
             
                     if var_name not in self.mapping:
-                        self.mapping.update({var_name : Pair(0, 0), s : Pair(0, 0)})
+                        self.mapping[var_name] = Pair(0, 0)
+                    self.mapping[s] = coeff * self.mapping[var_name]
                     self.bound[s] = (Pair(-math.inf, 0), Pair(math.inf, 0))
                     if var_name not in self.bound:
                         self.bound[var_name] = (Pair(-math.inf, 0), Pair(math.inf, 0))
